@@ -80,6 +80,36 @@ def cmd_check(args):
                 s2 = dict(s)
                 s2['unit'] = r['unit']
                 slots.append(s2)
+    # syntactic scans that back an assumption of the property (e.g. A-no-interior-mut for C15)
+    scan_hits = []
+    for sc in pcfg.get('scans', []):
+        rx = re.compile(sc['pattern'])
+        for root in sc['paths']:
+            for dp, dn, fn in os.walk(os.path.join(REPO, root)):
+                for f in sorted(fn):
+                    if not f.endswith('.rs'):
+                        continue
+                    path = os.path.join(dp, f)
+                    in_test = False
+                    for ln, line in enumerate(open(path, errors='replace'), 1):
+                        if '#[cfg(test)]' in line:
+                            in_test = True
+                        if in_test or line.strip().startswith('//'):
+                            continue
+                        if rx.search(line):
+                            scan_hits.append('%s: %s:%d: %s' % (sc['id'], os.path.relpath(path, REPO), ln, line.strip()[:80]))
+    if scan_hits:
+        for h in scan_hits[:5]:
+            undecided.append('scan: the assumption no longer holds syntactically: ' + h)
+        for fam in pcfg.get('scan_witness', []):
+            try:
+                w = replayers.search_family(fam, prop)
+            except Exception as e:
+                w = None
+            if w:
+                obligations.append({'id': 'scan::bounded-replay::%s' % fam, 'slot': None, 'props': [prop], 'status': 'failed', 'kind': 'bounded-replay',
+                                    'message': 'assumption scan failed (%s); the bounded replay search found a failing history on the real code: %s' % (scan_hits[0], w.get('why')),
+                                    'src': None, 'unit': 'scan', 'witness': w})
     # bounded stand-in (DESIGN 4.2): a unit the verifier could not decide (lost anchor, unsupported construct)
     # gets the bounded replay search of its witness families; a concrete failing input on the real code is a
     # violation found by a bounded check (labelled as such), anything else leaves the unit undecided.
@@ -188,7 +218,7 @@ def cmd_check(args):
             'failed_obligations': [o['id'] for o in violations],
             'scope': pcfg.get('scope', ''),
             'not_covered': pcfg.get('not_covered', []),
-            'bounded': bounded,
+            'bounded': bounded, 'scan_hits': scan_hits,
             'repo_head': repo_head(), 'repo_dirty': repo_dirty(),
         },
         'assumptions': assumptions,
